@@ -1130,3 +1130,129 @@ func VH03g_burst() {
 	verif.Reach("burst-epilogue")
 	sock.Close()
 }
+
+// VH04e_burst: a request is outstanding on one of two connections and a Recv
+// waits for its reply. K of {the carrying connection is lost; the retry timer
+// fires; the other connection is lost; a new peer connects; the reply arrives
+// on the carrying connection} happen at the same moment, under every schedule
+// in which one goroutine stalls at one synchronisation point until the others
+// are at rest. Unless the reply was delivered, the request must still be alive
+// afterwards: it is (re)transmitted, unchanged and under its own id, to a live
+// peer -- at once if its connection was lost, at the latest when the retry
+// timer next fires -- and the reply sent by that peer completes the Recv. Never
+// is the request written to a connection that has been detached, and the reply
+// is delivered exactly once.
+func VH04e_burst() {
+	K := verif.Param("K", 2)
+	lab := "C04/burst"
+	sock := vp.New("req")
+	retry := time.Second
+	verif.Assert(sock.SetOption(mangos.OptionRetryTime, retry) == nil, lab+"/set-retry")
+	side := vt.Listen(sock, "a")
+	pipes := []*vt.Pipe{side.Peer("p0"), side.Peer("p1")}
+	verif.Assert(sock.Send([]byte{'A', verif.Byte("payload")}) == nil, lab+"/send")
+	verif.Quiesce()
+	tx := transmissions(pipes, 'A')
+	verif.Assert(len(tx) == 1 && len(tx[0].h) == 4, lab+"/request-not-transmitted-exactly-once")
+	if len(tx) != 1 || len(tx[0].h) != 4 {
+		return
+	}
+	carrier := tx[0].pipe
+	other := pipes[0]
+	if carrier == pipes[0] {
+		other = pipes[1]
+	}
+	id := append([]byte{}, tx[0].h...)
+	body := append([]byte{}, tx[0].b...)
+	var rb []byte
+	var rerr error
+	rg := verif.Go("recv", func() { rb, rerr = sock.Recv() })
+	verif.Quiesce()
+	replied := false
+	last := -1
+	for k := 0; k < K; k++ {
+		ev := verif.Choice("ev", 5)
+		verif.Assume(ev > last)
+		last = ev
+		switch ev {
+		case 0:
+			carrier.Drop()
+		case 1:
+			verif.Assert(verif.FireTimerNow(), lab+"/no-retry-timer-pending-for-an-outstanding-request")
+		case 2:
+			other.Drop()
+		case 3:
+			pipes = append(pipes, side.L.Connect("p2"))
+		case 4:
+			replied = true
+			carrier.Deliver([]byte{id[0], id[1], id[2], id[3], 'R'})
+		}
+	}
+	verif.Quiesce()
+	check := func() {
+		for _, p := range pipes {
+			for _, r := range p.Sent {
+				verif.Assert(verif.BytesEq(r.H, id) && verif.BytesEq(r.B, body), lab+"/retransmission-differs-from-the-request")
+			}
+		}
+	}
+	check()
+	if rg.Done() {
+		verif.Assert(replied, lab+"/recv-returned-without-a-reply")
+		verif.Assert(rerr == nil && len(rb) == 1 && rb[0] == 'R', lab+"/wrong-reply-delivered")
+		verif.Reach("answered-in-burst")
+	} else {
+		// the request is still alive: find the live peer that has it, helping with the retry timer and a new peer
+		live := func() *vt.Pipe {
+			for _, p := range pipes {
+				if !p.Closed && len(p.Sent) > 0 {
+					return p
+				}
+			}
+			return nil
+		}
+		anyOpen := false
+		for _, p := range pipes {
+			if !p.Closed {
+				anyOpen = true
+			}
+		}
+		if !anyOpen {
+			pipes = append(pipes, side.Peer("late"))
+		}
+		// a reply that arrived on the carrier while it was being torn down may have been lost with it: that is
+		// the network's doing; the request then has to be re-sent like any other unanswered one
+		for i := 0; i < 3 && live() == nil; i++ {
+			verif.FireTimer()
+		}
+		p := live()
+		verif.Assert(p != nil, lab+"/request-never-retransmitted-to-a-live-peer")
+		if p == nil {
+			return
+		}
+		check()
+		p.Deliver([]byte{id[0], id[1], id[2], id[3], 'S'})
+		verif.Quiesce()
+		verif.Assert(rg.Done() && rerr == nil, lab+"/reply-from-the-peer-holding-the-request-not-delivered")
+		if rg.Done() && rerr == nil {
+			verif.Assert(len(rb) == 1 && (rb[0] == 'S' || (replied && rb[0] == 'R')), lab+"/wrong-reply-delivered")
+		}
+		verif.Reach("answered-after-burst")
+	}
+	// once answered: no further transmission, no second delivery
+	n := 0
+	for _, p := range pipes {
+		n += len(p.Sent)
+	}
+	for i := 0; i < 2; i++ {
+		verif.FireTimer()
+	}
+	m := 0
+	for _, p := range pipes {
+		m += len(p.Sent)
+	}
+	verif.Assert(m == n, lab+"/retransmitted-after-the-reply-was-delivered")
+	_, e2 := sock.Recv()
+	verif.Assert(e2 == mangos.ErrProtoState, lab+"/reply-delivered-twice")
+	sock.Close()
+}
